@@ -16,7 +16,7 @@ EXHAUSTIVE = {"quick": "every dataset (3 elements, <=2 rankings) x (every insert
               "thorough": "same for <=3 rankings (every 3rd) and 4 elements (every 5th), random larger pairs"}
 ASSUMPTIONS = ["set iteration order is reached through insertion order and CPython's small-table collisions "
                "({0,8,16,24}); PYTHONHASHSEED=0 fixes string hashing; a second hash seed is used in thorough"]
-NAMINGS = ["collide", "letters", "ints"]
+NAMINGS = ["collide", "letters", "ints", "neg"]
 
 
 def _orders(D, variant):
@@ -56,6 +56,8 @@ def _near_misses(D):
             nr = [list(c) for c in r]
             nr[0], nr[1] = nr[1], nr[0]
             out.append(D[:k] + [nr] + D[k + 1:])
+        if len(r) >= 2:
+            out.append(D[:k] + [r[:-1]] + D[k + 1:])         # last bucket dropped: a bucket-prefix of the ranking
         out.append(D + [r])                      # one multiplicity changed
         if len(D) > 1:
             out.append(D[:k] + D[k + 1:])
@@ -94,7 +96,7 @@ def mutation_cases(dss, rng):
             ops.append({"op": "remove_elements", "S": [U[k % len(U)]]})
         for op in ops:
             for P in (D, list(reversed(D)), dss[rng.randrange(len(dss))]):
-                cases.append({"a": D, "oa": _orders(D, 0), "b": P, "ob": _orders(P, 1), "naming": NAMINGS[k % 3],
+                cases.append({"a": D, "oa": _orders(D, 0), "b": P, "ob": _orders(P, 1), "naming": NAMINGS[k % 4],
                               "ne": max(grids.universe(D) + grids.universe(P)), "ops": [op]})
     return cases
 
